@@ -624,6 +624,7 @@ func runC09(r *Run, verifDir string) {
 	}
 
 	// --- B6
+	c08K3RecoveredError(r, "C09.B6")
 	hb := p.Func("kmipserver", "", "handleBatchItemError")
 	if hb == nil {
 		r.Unk("C09.B6", "kmipserver.handleBatchItemError", token.NoPos, "anchor missing")
